@@ -443,13 +443,13 @@ _ROW_PRE = {}
 
 def row_pre_env(model, r):
     row_summary(model, r)
-    return _ROW_PRE[id(model)]
+    return model.__dict__["_row_pre"]
 
 
 def row_summary(model, r):
     key = id(model)
-    if key in _ROW_CACHE:
-        return _ROW_CACHE[key]
+    if "_row_summary" in model.__dict__:
+        return model.__dict__["_row_summary"]
     an = solve_anchors(model, r)
     fn, row = an["fn"], an["row"]
     hooks = SysHooks(model, r, ("_get_parent_name",))
@@ -464,7 +464,7 @@ def row_summary(model, r):
     for v in (an["V"], an["I"], an["STATE"]):
         st.env[v] = Sym(("name", {an["V"]: "v", an["I"]: "i", an["STATE"]: "state"}[v]))
     st.env[an["phase_loop"].target.id] = Sym(("name", "ph"))
-    _ROW_PRE[key] = dict(st.env)
+    model.__dict__["_row_pre"] = dict(st.env)
     try:
         leaves = sm.summarize_block(row.body, st.env)
     except Unsupported as e:
@@ -472,8 +472,7 @@ def row_summary(model, r):
     sargs = {"self": Sym(("name", "self")), "n": Sym(("name", "n")), "v": Sym(("name", "v")), "i": Sym(("name", "i")),
              "state": Sym(("name", "state")), "ph": Sym(("name", "ph")), "ta": args.get("ta", Sym(("name", "ta")))}
     sl = spec_leaves(model, r, "solve__row", sargs, inline=())
-    _ROW_CACHE.clear()
-    _ROW_CACHE[key] = (an, leaves, sl)
+    model.__dict__["_row_summary"] = (an, leaves, sl)
     return an, leaves, sl
 
 
@@ -1273,3 +1272,7 @@ def set_sys_phases_rule(model, rep, rule):
                       "the system phase set is not simply replaced by the argument (%s): phases dropped by the caller stay defined / other configuration changes" % ("; ".join(other) or "no wholesale assignment"),
                       "phase set not replaced: " + ("; ".join(sorted(set(other))) or "none"))
     rep.instance(rule, "system.System.set_sys_phases replaces the phase set", "%s:%d" % (rel, fn.lineno), ok)
+
+
+def lift0():
+    return lift(0)
